@@ -118,10 +118,12 @@ def gen_case2(rng):
     unit = rng.choice([4, 8, 16, 40])
     sizes = gen_sizes(rng, unit, len(paths))
     files = [{'parts': p, 'size': s, 'kind': rng.choice(['data', 'data', 'zero', 'rep', 'same'])} for p, s in zip(paths, sizes)]
+    if files and rng.random() < 0.5:
+        files[0]['parts'][-1] = rng.choice(['né', 'ü-名', 'Ω.txt', 'д']) + files[0]['parts'][-1]
     return {'dir': 2, 'config': config, 'files': files, 'seed': rng.randint(0, 2 ** 31),
             'align': rng.choice([1, 4, 4, 4, 8]),                      # padding between files (1 = none)
             'split': rng.choice(['fixed4', 'fixed4', 'random', 'one', 'perfile']), 'unit': unit,
-            'legacy': rng.random() < 0.45, 'style': rng.choice(['compact', 'compact', 'spaced', 'indented']),
+            'legacy': rng.random() < 0.45, 'style': rng.choice(['compact', 'utf8', 'utf8', 'spaced', 'indented']),
             'mac_length': rng.choice([64, 64, 32, 16]), 'shuffle': rng.random() < 0.7, 'two': rng.random() < 0.3,
             'drop_empty_refs': rng.random() < 0.5, 'concurrent': rng.choice([1, 2, 5]),
             'kdf': {'name': 'scrypt', 'n': rng.choice([2, 4, 8]), 'r': rng.choice([1, 2]), 'p': 1}}
@@ -503,7 +505,9 @@ def run_dir2(case, layouts, manifests, wd: Path):
         if case['shuffle']:
             rng.shuffle(entries)
         data = {'utc_timestamp': f'2026-0{k + 1}-01 10:00:00.000000', 'files': entries}
-        if rng.random() < 0.5:
+        if case['style'] == 'utf8' or rng.random() < 0.3:
+            data['note'] = 'écrit par le writer de référence — 参照'      # raw UTF-8 in the 'utf8' style, \u-escaped otherwise
+        elif rng.random() < 0.5:
             data['note'] = 'written by the reference writer'
         w.put_snapshot(table, data)
     backend = MemBackend()
@@ -764,6 +768,21 @@ def check_json(rep, ctx, n, with_model=True):
             if h != {'!b': base64.standard_b64encode(v).decode('ascii')} or utils.type_reverse(h) != v:
                 rep.violations.append({'what': f'byte string {v.hex()} is not tagged as {{"!b": standard base64}}: {h}',
                                        'signature': {'kind': 'tagging'}, 'replay': replay})
+    # stored JSON is RFC 8259 text: UTF-8 bytes with or without \\u escapes, and str, mean the same
+    for doc in ({'note': 'é — 参照', 'path': '/srv/名/ü', 'digest': b'\xff\x00\xfe'}, ['д', {'k': 'Ω', 'b': b'\x01'}], {'ascii': 'only'}):
+        rep.case({'json_utf8': repr(doc)}, nontrivial=True)
+        rep.count('json_utf8_documents')
+        for style in ('utf8', 'compact', 'indented'):
+            text = refcodec.dumps(doc, style)
+            for form, arg in (('bytes', text), ('str', text.decode('utf-8'))):
+                try:
+                    got = r.deserialize(arg)
+                except Exception as e:
+                    got = f'{type(e).__name__}: {e}'
+                if got != doc:
+                    rep.violations.append({'what': f'deserialize of RFC 8259 JSON ({style}, {form}) {text[:60]!r} gives {str(got)[:100]}',
+                                           'signature': {'kind': 'json_text_encoding', 'style': style, 'form': form},
+                                           'replay': {'dir': 'json', 'value': repr(doc)}})
     if not with_model:
         return
     out, err = coq_batches('c14json', values, model_json, 80)
@@ -906,6 +925,7 @@ def do_dir2(rep, ctx, cases, with_model=True):
         rep.count('d2_encrypted' if 'encryption' in case['config'] else 'd2_unencrypted')
         rep.count('d2_legacy_metadata' if case['legacy'] else 'd2_current_metadata')
         rep.count('d2_split=' + case['split'])
+        rep.count('d2_json=' + case['style'])
         rep.count('d2_align=%d' % case['align'])
         rep.sample({'direction': 2, 'config': case['config'], 'files': [f['size'] for f in case['files']], 'chunk_lengths': layouts[i][0]['clens'][:12],
                     'metadata': 'pre-1.3' if case['legacy'] else 'current', 'ranges_written_by': 'Coq model' if manifests[i] else 'direct'}, limit=4)
